@@ -263,7 +263,7 @@ int main(int argc, char **argv)
         mc_e2_level("transfer", g_k * 10 + g_dev, (uint64_t) NLENS * 2, tr_case, tr_desc, NULL);
     }
     if (!mc_arg("only", NULL) || !strcmp(mc_arg("only", ""), "lifecycle")) {
-        mc_sys sys = { "lifecycle", NOPS, op_name, fresh, enabled, apply, NULL, canon, teardown };
+        mc_sys sys = { "lifecycle", NOPS, op_name, fresh, enabled, apply, NULL, canon, teardown, (int) mc_arg_int("lookahead", 1) };
         mc_e1_run(&sys, depth);
     }
     return mc_finish();
